@@ -27,6 +27,11 @@ func New(c model.Cfg) *plenc.Plenc {
 			p.RegisterCodecWithTag(k.Type, k.Tag, plenccodec.BQTimestampCodec{})
 		}
 	}
+	for t, s := range c.Plain {
+		if s == model.SpBQTime {
+			p.RegisterCodec(t, plenccodec.BQTimestampCodec{})
+		}
+	}
 	return p
 }
 
